@@ -6,6 +6,8 @@ import (
 	"flag"
 	"fmt"
 	"os"
+	"runtime/debug"
+	"runtime/pprof"
 	"strconv"
 	"strings"
 
@@ -20,6 +22,8 @@ func envOr(k, d string) string {
 }
 
 func main() {
+	// the live heap is dominated by the (immutable) SSA program; collect rarely
+	debug.SetGCPercent(800)
 	if len(os.Args) < 2 {
 		fmt.Fprintln(os.Stderr, "usage: gosymx run|check ...")
 		os.Exit(2)
@@ -43,7 +47,13 @@ func cmdRun(args []string) {
 	maxPaths := fs.Int("maxpaths", 100000, "path cap")
 	known := fs.String("known", "", "comma-separated known-finding predicates")
 	witness := fs.Int("witness", 0, "sample every n-th path")
+	prof := fs.String("cpuprofile", "", "write cpu profile")
 	fs.Parse(args)
+	if *prof != "" {
+		f, _ := os.Create(*prof)
+		pprof.StartCPUProfile(f)
+		defer pprof.StopCPUProfile()
+	}
 	repo := envOr("VERIF_REPO", "/repo")
 	p, err := sx.Load(repo, envOr("VERIF_HARNESS", "/verif/harness"))
 	if err != nil {
@@ -68,7 +78,7 @@ func cmdRun(args []string) {
 	if *known != "" {
 		kn = strings.Split(*known, ",")
 	}
-	res := w.Run(sx.Item{Harness: *harness, Shape: sh, MaxPaths: *maxPaths, Known: kn, WitnessN: *witness})
+	res := w.Run(sx.Item{Harness: *harness, Shape: sh, MaxPaths: *maxPaths, Known: kn, WitnessN: *witness}, nil)
 	res.Funcs = nil
 	b, _ := json.MarshalIndent(res, "", " ")
 	fmt.Println(string(b))
